@@ -555,6 +555,10 @@ class Type2Tag(Tag):
             sector_select_1 = b'\xC2\xFF'
             sector_select_2 = pack('Bxxx', sector)
 
+            # Until the switch is confirmed the selected sector is not
+            # known: a failed exchange may or may not have been executed
+            # by the tag, the next call must select again.
+            self._current_sector = None
             rsp = self.transceive(sector_select_1)
             if len(rsp) == 1 and rsp[0] == 0x0A:
                 try:
